@@ -530,6 +530,34 @@ def _flat_cases(v, conds=()):
     return [(conds, v)]
 
 
+def _pred_cases(v):
+    """[(conditions, leaf)] of a list value: the arms of a phi / ifexp tree, and -- for a comprehension filtered by a predicate that was
+    itself CHOSEN by a chain of tests (`keep = <lambda per argument type>; [.. if keep(i, r)]`) -- one comprehension per predicate,
+    with the chosen predicate's body as the filter; an arm of the chain that raises builds no list"""
+    out = []
+    for conds, leaf in _flat_cases(v):
+        if leaf[0] == "comp" and len(leaf[3]) == 1:
+            tg, it, ifs = leaf[3][0]
+            calls = [c for c in ifs if c[0] == "call" and c[1][0] in ("phi", "ifexp") and not c[3]]
+            if len(calls) == 1:
+                c = calls[0]
+                done = True
+                sub = []
+                for conds2, fv in _flat_cases(c[1]):
+                    if fv[0] == "raise":
+                        continue
+                    if fv[0] != "lambda" or len(fv[1]) != len(c[2]):
+                        done = False
+                        break
+                    test = simp(subst(fv[2], dict(zip(fv[1], c[2]))))
+                    sub.append((conds + conds2, ("comp", leaf[1], leaf[2], ((tg, it, tuple(test if x is c else x for x in ifs)),))))
+                if done and sub:
+                    out.extend(sub)
+                    continue
+        out.append((conds, leaf))
+    return out
+
+
 def _r4(ctx, pkg, rule="R4"):
     """What happens to self.reaction_list when the argument is a list of positions: every statement that can run in that
     scenario (guards and value-selecting conditions evaluated with `reaction` a non-empty list of ints, unknown tests left open)
@@ -537,7 +565,8 @@ def _r4(ctx, pkg, rule="R4"):
     from ..valueflow import _bool_atoms, guards_satisfiable, split_guard
     fn = pkg.method("Network", "remove_reaction")
     ctx.saw(NF, "Network.remove_reaction")
-    fl = Flow(fn, NF)
+    # type tests moved into a small predicate (a method of the class or a function of the module) are read through
+    fl = Flow(fn, NF, resolver=lambda name: pkg.resolve("Network", name)[1], func_resolver=lambda name: pkg.functions.get((NF, name)), raise_arms=True)
     RL = ("attr", SELF, "reaction_list")
     P = fn.args.args[1].arg if len(fn.args.args) > 1 else "reaction"
     R = ("param", P)
@@ -545,6 +574,8 @@ def _r4(ctx, pkg, rule="R4"):
     p_ = re.escape(P)
     SCEN = [(rf"^isinstance\({p_}, int\)$", False), (rf"^isinstance\({p_}, list\)$", True), (rf"^all\(\[isinstance\(\w+, int\) for \w+ in {p_}\]\)$", True),
             (rf"^isinstance\({p_}, Reaction\)$", False), (rf"^all\(\[isinstance\(\w+, Reaction\) for \w+ in {p_}\]\)$", False)]
+
+    undecided = []
 
     def reachable(guards):
         gs = []
@@ -555,43 +586,66 @@ def _r4(ctx, pkg, rule="R4"):
             _bool_atoms(c, atoms)
         extra = []
         for a_ in atoms:
+            hit = False
             for pat, val in SCEN:
                 if re.search(pat, show(a_)):
                     extra.append((a_, val))
+                    hit = True
+            if not hit and any(x == R for x in walk(a_)):
+                undecided.append(a_)        # a test of the argument this rule cannot evaluate for a list of positions
         return guards_satisfiable(gs, extra)
 
     # everything that changes self.reaction_list, case by case
-    cases = []          # (kind, leaf | None, fact)
+    cases = []          # (kind, leaf | None, fact, every test of the argument on the way was evaluated)
     for f in fl.facts:
         if f.kind == "attrstore" and f.target == "reaction_list" and f.extra.get("obj") == SELF:
-            for conds, leaf in _flat_cases(simp(f.value)):
+            for conds, leaf in _pred_cases(simp(f.value)):
+                del undecided[:]
                 if reachable(tuple(f.guards) + conds):
-                    cases.append(("rebuild" if f.op == "=" else "inplace", leaf, f))
+                    cases.append(("rebuild" if f.op == "=" else "inplace", leaf, f, not undecided))
         elif f.kind == "call" and f.value is not None and f.value[0] == "meth" and simp(f.value[1]) == RL and f.target in ("pop", "remove", "clear", "insert", "append", "extend", "sort", "reverse"):
+            del undecided[:]
             if reachable(f.guards):
-                cases.append(("inplace", None, f))
+                cases.append(("inplace", None, f, not undecided))
         elif (f.kind == "delete" and f.target.replace(" ", "").startswith("self.reaction_list")) or (f.kind in ("store", "augstore") and f.target == "self.reaction_list"):
+            del undecided[:]
             if reachable(f.guards):
-                cases.append(("inplace", None, f))
+                cases.append(("inplace", None, f, not undecided))
     W = (NF, cases[0][2].line if cases else fn.lineno)
     inplace = [c for c in cases if c[0] == "inplace"]
     EXP = "[r for idx, r in enumerate(self.reaction_list) if idx not in reaction]"
     BADMSG = "the index-list branch does not rebuild the list from `idx not in reaction`: in-place deletion shifts positions / mishandles repeated indices"
     if inplace:
-        f = inplace[0][2]
-        ctx.bad(rule, K, (NF, f.line), BADMSG, expected=EXP, found="; ".join(f"{c[2].kind} {c[2].target}@{c[2].line}" for c in cases))
+        sure = [c for c in inplace if c[3]]
+        f = (sure or inplace)[0][2]
+        if sure:
+            ctx.bad(rule, K, (NF, f.line), BADMSG, expected=EXP, found="; ".join(f"{c[2].kind} {c[2].target}@{c[2].line}" for c in cases))
+        else:
+            # the branch is chosen by a test of the argument that was not evaluated: it may be the branch of another argument type
+            ctx.unrec(rule, K, (NF, f.line), "cannot tell whether the in-place change of self.reaction_list is reached for a list of positions (a test of the argument is not understood)")
         return
     if not cases:
         ctx.unrec(rule, K, W, "no statement that changes self.reaction_list for a list of positions was found")
         return
     verdicts = []
-    for _, v, f in cases:
+    for _, v, f, sure in cases:
         ok = wrong = False
         if v[0] == "comp" and len(v[3]) == 1:
             tg, it, ifs = v[3][0]
             ok = it == ("call", ("global", "enumerate"), (RL,), ()) and tg[0] == "tuple" and v[2] == tg[1][1] and tuple(ifs) == (("cmp", ("NotIn",), (tg[1][0], R)),)
             # a filter over the list itself with another test is understood -- and wrong (by value, by `idx in`, ...)
-            wrong = not ok and it in (RL, ("call", ("global", "enumerate"), (RL,), ()))
+            # (positive evidence only when the statement is known to run for a list of positions)
+            # (positive evidence only when the statement is known to run for a list of positions and the test is a plain
+            # comparison of the loop's own variables with the argument -- a predicate that is called is not understood, not wrong)
+            bound = {x for x in walk(tg) if isinstance(x, tuple) and x and x[0] == "bv"}
+
+            def plain(c):
+                if c[0] == "unop" and c[1] == "Not":
+                    return plain(c[2])
+                if c[0] == "bool":
+                    return all(plain(x) for x in c[2])
+                return c[0] == "cmp" and all(x in bound or x == R or x[0] == "const" for x in c[2])
+            wrong = not ok and sure and it in (RL, ("call", ("global", "enumerate"), (RL,), ())) and all(plain(c) for c in ifs)
         verdicts.append((ok, wrong, v, f))
     if all(o for o, _, _, _ in verdicts):
         ctx.ok(rule, K, W, "exactly the reactions whose position is not listed survive (repeated indices are harmless)")
